@@ -67,6 +67,17 @@ def main():
     import ufl.algorithms  # noqa: F401
     import ufl.classes  # noqa: F401
 
+    # Import every ufl submodule now: a lazy import during a run would execute module
+    # top-level code (extra line events, extra registrations) only the first time.
+    import importlib
+    import pkgutil
+
+    for mi in pkgutil.walk_packages(ufl.__path__, "ufl."):
+        try:
+            importlib.import_module(mi.name)
+        except Exception:
+            pass
+
     from sim import ops
     from sim import planner  # noqa: F401  (node-side generator)
     from sim import nodeext  # noqa: F401  (scenario-specific node ops)
